@@ -16,7 +16,7 @@ from bare_script.runtime import BareScriptRuntimeError
 
 NP, LAST = {np}, {last!r}
 PARAMS = ['p0', 'p1', 'p2'][:NP]
-SRC = 'function ff(' + ', '.join(PARAMS) + ('...' if LAST else '') + '):' + chr(10) + \\
+SRC = 'function ff(' + ' , '.join(PARAMS) + (' ...' if LAST else '') + ' ) :' + chr(10) + \\
       '    return arrayNew(' + ', '.join(PARAMS + ['gg0']) + ')' + chr(10) + 'endfunction' + chr(10) + \\
       'pp = systemPartial(ff, 100)' + chr(10)
 MODEL = parse_script(SRC)
@@ -157,6 +157,18 @@ endfunction
 rr = ff()
 top = vv + 2
 ''', '[3, vv * 2 + yy, gv]', 'vv + 2', ['tmp', 'aa']),
+    'shadowing_value': ('''\
+function helper(aa):
+    return aa + 100
+endfunction
+function ff(helper, systemCompare):
+    xx = helper(1)
+    loc = systemCompare(1, 2)
+    return arrayNew(xx, loc, helper)
+endfunction
+rr = ff(vv, 5)
+top = vv + 2
+''', '[None, None, vv]', 'vv + 2', ['loc']),
     'callback': ('''\
 function cmp(aa, bb):
     xx = aa
@@ -225,6 +237,10 @@ def core_host(host_len, host_abs, host_ff, nn, host_none=False):
     r = evaluate_expression(parse_expression('abs(0 - 3)'), {{'globals': g}}, None, True)
     if r != (77 if host_abs else 3):
         info.update(clause='a global named like a built-in must win over the built-in', result=repr(r))
+        return False, info
+    r = evaluate_expression(parse_expression('max(1, 2)'), {{'globals': dict(g, max=10)}}, None, True)
+    if r is not None:
+        info.update(clause='a global VALUE named like a built-in must win over the built-in (calling it yields null)', result=repr(r))
         return False, info
     r = evaluate_expression(parse_expression('abs(0 - 3)'), {{'globals': g}}, {{'abs': my_ff}}, True)
     if r != 55:
